@@ -213,4 +213,74 @@ theorem quiet_errbacks {cfg : Cfg} {s : ObsState} (h : Quiet s) (es : List TEven
   have := (quiet_run (cfg := cfg) h es).2 td htd
   simp [this, Delivery.err?]
 
+-- the application cancelled the observation before the first response --------------------------------
+
+/-- a delivery that tells the observation's listeners something -/
+def Delivery.isSignal : Delivery → Bool
+  | .callback _ => true
+  | .errback _ => true
+  | _ => false
+
+/-- whatever comes first after `observation.cancel()` before the first response: the runner is
+quiet afterwards, the observation's listeners got nothing, at most the response future completed -/
+theorem cancelledFirst_step (cfg : Cfg) (e : TEvent) :
+    Quiet (step cfg .cancelledFirst e).1 ∧ (∀ d ∈ (step cfg .cancelledFirst e).2, d.isSignal = false) ∧
+    (accepted ((step cfg .cancelledFirst e).2.map (fun d => (e.time, d)))).length ≤ 1 := by
+  obtain ⟨t, ev⟩ := e
+  cases ev with
+  | message m last =>
+    cases last
+    · cases hv : m.obs <;>
+        simp [step, stepCancelledFirst, hv, Quiet, Delivery.isSignal, accepted_cons_response]
+    · cases hv : m.obs <;>
+        simp [step, stepCancelledFirst, Quiet, Delivery.isSignal, accepted_cons_response, hv]
+  | exception k => simp [step, stepCancelledFirst, Quiet, Delivery.isSignal]
+  | obsCancel => simp [step, stepCancelledFirst, Quiet]
+  | respCancel => simp [step, stepCancelledFirst, Quiet, Delivery.isSignal]
+
+/-- the observation was cancelled by the application, or the runner is over -/
+def Calm (s : ObsState) : Prop := s = .cancelledFirst ∨ Quiet s
+
+theorem calm_step {cfg : Cfg} {s : ObsState} (h : Calm s) (e : TEvent) :
+    Calm (step cfg s e).1 ∧ ∀ d ∈ (step cfg s e).2, d.isSignal = false := by
+  rcases h with h | h
+  · subst h
+    exact ⟨Or.inr (cancelledFirst_step cfg e).1, (cancelledFirst_step cfg e).2.1⟩
+  · obtain ⟨h1, h2⟩ := quiet_step (cfg := cfg) h e
+    exact ⟨Or.inr h1, fun d hd => by rw [h2 d hd]; rfl⟩
+
+theorem calm_run {cfg : Cfg} {s : ObsState} (h : Calm s) (es : List TEvent) :
+    Calm (finalState cfg s es) ∧ ∀ d ∈ deliveries cfg s es, d.isSignal = false := by
+  induction es generalizing s with
+  | nil => exact ⟨h, by simp [deliveries_nil]⟩
+  | cons e es ih =>
+    obtain ⟨h1, h2⟩ := calm_step (cfg := cfg) h e
+    obtain ⟨h3, h4⟩ := ih h1
+    refine ⟨by rw [finalState_cons]; exact h3, ?_⟩
+    intro d hd
+    rw [deliveries_cons, List.mem_append] at hd
+    rcases hd with hd | hd
+    · exact h2 d hd
+    · exact h4 d hd
+
+theorem cancelledFirst_accepted (cfg : Cfg) (es : List TEvent) :
+    (accepted (trace cfg .cancelledFirst es)).length ≤ 1 := by
+  cases es with
+  | nil => simp [trace_nil]
+  | cons e es =>
+    obtain ⟨h1, _, h3⟩ := cancelledFirst_step cfg e
+    rw [trace_cons, accepted_append, quiet_accepted h1, List.append_nil]
+    exact h3
+
+theorem cancelledFirst_not_observing (cfg : Cfg) (es : List TEvent) (v t : Nat) :
+    finalState cfg .cancelledFirst es ≠ .observing v t := by
+  cases es with
+  | nil => simp [finalState_nil]
+  | cons e es =>
+    rw [finalState_cons]
+    intro he
+    have := (quiet_run (cfg := cfg) (cancelledFirst_step cfg e).1 es).1
+    rw [he] at this
+    simp [Quiet] at this
+
 end Aiocoap.Observe
